@@ -114,6 +114,12 @@ pub fn fees(seed: u64) -> Vec<Scenario> {
     add(Tier::Quick, format!("depwd.{}", p.tag()), d, 400, 120, Box::new(t_depwd(pc.clone())));
     add(Tier::Quick, format!("fund.close.{}", p.tag()), d, 600, 150, Box::new(t_fund(pc.clone(), 0)));
     add(Tier::Quick, format!("open.{}", p.clone().native().tag()), d, 600, 150, Box::new(t_open(p.clone().native())));
+    for pz in [pc.clone().toll0(), pc.clone().spread0()] {
+        add(Tier::Quick, format!("fund.close.{}", pz.tag()), d, 600, 150, Box::new(t_fund(pz.clone(), 0)));
+        add(Tier::Quick, format!("fund.close.{}", pz.clone().native().tag()), d, 600, 150, Box::new(t_fund(pz.clone().native(), 0)));
+        add(Tier::Quick, format!("opp.{}", pz.clone().native().tag()), d, 800, 150, Box::new(t_open2(pz.clone().native(), false)));
+        add(Tier::Quick, format!("inc.{}", pz.tag()), d, 600, 150, Box::new(t_open2(pz.clone(), true)));
+    }
     add(Tier::Quick, format!("close.against.{}", pc.clone().native().tag()), d, 400, 150, Box::new(t_close(pc.clone().native(), false)));
     add(Tier::Quick, format!("close.with.{}", P::new(prop, Sell, seed).fees().concrete_prefix().native().tag()), d, 400, 150, Box::new(t_close(P::new(prop, Sell, seed).fees().concrete_prefix().native(), true)));
     add(Tier::Quick, format!("fund.close.{}", pc.clone().native().tag()), d, 600, 150, Box::new(t_fund(pc.clone().native(), 0)));
